@@ -59,6 +59,9 @@ def run(ctx):
     c16.r3_alphabets(ctx)
     ctx.alias = {}
     r6_american_reader(ctx)
+    from . import shared as _sh
+    _sh.no_memoised_mutable_results(ctx, 'R4', [f'{N.TRANSPOSER}.transpose_agnostics', f'{N.TRANSPOSER}.transpose',
+                                                f'{N.PITCH}.AgnosticPitch.to_transposed', f'{N.TRANSPOSER}.transpose_encoding_to_agnostic'])
     ctx.extra['base'] = B
 
 
